@@ -16,7 +16,8 @@ Record trun := mkTR {
   tr_tok : list Z;            (* persisted continuation token per member, -1 = "" *)
   tr_sink : list version;     (* latest view of the sink dataset, one entry per id *)
   tr_sinklen : Z;             (* length of the sink's change feed *)
-  tr_srclens : list Z         (* lengths of the source change feeds at that moment *)
+  tr_srclens : list Z;        (* lengths of the source change feeds at that moment *)
+  tr_new : list version       (* the entries the run appended to the sink's change feed *)
 }.
 
 Inductive top := TW (k : nat) (es : list version) | TSW (es : list version) | TRun (r : trun)
@@ -26,6 +27,7 @@ Inductive top := TW (k : nat) (es : list version) | TSW (es : list version) | TR
 Record tcase := mkTC {
   c_members : nat; c_union : bool; c_los : list bool; c_batch : nat;
   c_handlers : list handler;  (* onError handlers of both triggers of the job *)
+  c_sinkhttp : bool;          (* HttpDatasetSink -> the hub's POST /datasets/sink/entities handler *)
   c_ops : list top;
   o_srcs : list feed          (* observed: the final change feeds of the source datasets *)
 }.
@@ -47,7 +49,8 @@ Definition view_eqb (a b : feed) : bool :=
 (** [present] = the sink dataset exists when the operation happens (the sink is looked up by
     name at every run, so a run while it is absent behaves as [FNoSink]) *)
 Definition rcfg_of (c : tcase) (present : bool) (r : trun) : rcfg :=
-  mkR (tr_full r) (c_union c) (c_batch c) (c_los c) (if present then tr_flt r else FNoSink) (c_handlers c).
+  mkR (tr_full r) (c_union c) (c_batch c) (c_los c) (if present then tr_flt r else FNoSink) (c_handlers c)
+      (c_sinkhttp c).
 Definition op_of (c : tcase) (present : bool) (o : top) : op :=
   match o with
   | TW k es => OWrite k es | TSW es => OSinkWrite es | TRun r => ORun (rcfg_of c present r)
@@ -141,19 +144,21 @@ Definition run_safe_spec (srcs : list feed) (r : trun) : bool :=
            srcs (tr_srclens r) (tr_tok r).
 
 (** convergence after a successful run *)
-Definition run_conv_spec (srcs : list feed) (r : trun) : bool :=
+(** [em] = the run is an entities-mode fullsync (HttpDatasetSink): its token is not stored *)
+Definition run_conv_spec (em : bool) (srcs : list feed) (r : trun) : bool :=
   if N.eqb (tr_out r) 0 then
-    forallb3 (fun f n tz => conv1_b (firstn (Z.to_nat n) f) tz (tr_sink r)) srcs (tr_srclens r) (tr_tok r)
+    forallb3 (fun f n tz => conv1_b (firstn (Z.to_nat n) f) (if em then n else tz) (tr_sink r))
+             srcs (tr_srclens r) (tr_tok r)
     && (if tr_full r then
           foreign_deleted_b (cuts srcs (tr_srclens r)) (tr_sink r)
         else true)
   else true.
 
 (** re-running (incrementally) with nothing new changes nothing: view, token, sink feed *)
-Definition run_idem_spec (prev : option trun) (r : trun) : bool :=
+Definition run_idem_spec (emp : bool) (prev : option trun) (r : trun) : bool :=
   match prev with
   | Some p =>
-    if N.eqb (tr_out p) 0 && zlist_eqb (tr_srclens p) (tr_srclens r) && negb (tr_full r) then
+    if negb emp && N.eqb (tr_out p) 0 && zlist_eqb (tr_srclens p) (tr_srclens r) && negb (tr_full r) then
       view_eqb (tr_sink p) (tr_sink r) && zlist_eqb (tr_tok p) (tr_tok r)
       && Z.eqb (tr_sinklen p) (tr_sinklen r)
     else true
@@ -188,24 +193,24 @@ Definition run_absent_spec (last : list Z) (r : trun) : bool :=
     suspended - the token still describes the deleted dataset - until a fullsync completes,
     which must converge from any state; [present] = the sink dataset exists; [last] = the token
     observed after the previous run. *)
-Definition run_spec (srcs : list feed) (prev : option trun) (dirty present : bool) (last : list Z)
+Definition run_spec (shl : bool) (srcs : list feed) (prev : option trun) (dirty present : bool) (last : list Z)
     (r : trun) : bool :=
   (dirty || run_safe_spec srcs r)
-  && ((dirty && negb (tr_full r)) || run_conv_spec srcs r)
-  && (dirty || run_idem_spec prev r)
+  && ((dirty && negb (tr_full r)) || run_conv_spec (tr_full r && shl) srcs r)
+  && (dirty || run_idem_spec (match prev with Some p => tr_full p && shl | None => false end) prev r)
   && run_origin_spec srcs r
   && (present || run_absent_spec last r).
 
-Fixpoint spec_ops (srcs : list feed) (prev : option trun) (dirty present : bool) (last : list Z)
+Fixpoint spec_ops (shl : bool) (srcs : list feed) (prev : option trun) (dirty present : bool) (last : list Z)
     (ops : list top) : bool :=
   match ops with
   | [] => true
   | TRun r :: ops' =>
-    run_spec srcs prev dirty present last r
-    && spec_ops srcs (Some r) (dirty && negb (tr_full r && N.eqb (tr_out r) 0)) present (tr_tok r) ops'
-  | TDrop :: ops' => spec_ops srcs None true false last ops'
-  | TCreate :: ops' => spec_ops srcs None dirty true last ops'
-  | _ :: ops' => spec_ops srcs None dirty present last ops'
+    run_spec shl srcs prev dirty present last r
+    && spec_ops shl srcs (Some r) (dirty && negb (tr_full r && N.eqb (tr_out r) 0)) present (tr_tok r) ops'
+  | TDrop :: ops' => spec_ops shl srcs None true false last ops'
+  | TCreate :: ops' => spec_ops shl srcs None dirty true last ops'
+  | _ :: ops' => spec_ops shl srcs None dirty present last ops'
   end.
 
 (** well-formed cases: some ownership of ids by members makes every operation well-formed
@@ -213,8 +218,47 @@ Fixpoint spec_ops (srcs : list feed) (prev : option trun) (dirty present : bool)
 Definition wf_case (c : tcase) : Prop :=
   exists owner, Forall (wf_op owner (c_members c)) (ops_of c true (c_ops c)).
 
+(** fullsyncs of this case to the sink run in entities mode *)
+Definition shl_of (c : tcase) : bool :=
+  c_sinkhttp c && negb (negb (c_union c) && nth 0 (c_los c) false).
+
 Definition spec_ok (c : tcase) : bool :=
-  spec_ops (o_srcs c) None false true (repeat (-1)%Z (c_members c)) (c_ops c).
+  spec_ops (shl_of c) (o_srcs c) None false true (repeat (-1)%Z (c_members c)) (c_ops c).
+
+(** ** Further clauses, evaluated on the observations only (not covered by C08_agree_implies_spec) *)
+
+(** a LatestOnly member only ever delivers versions that are the latest of their entity when the
+    run reads them: what a run appended to the sink's feed for an entity of such a member is that
+    member's current version *)
+Definition run_latest_spec (los : list bool) (srcs : list feed) (r : trun) : bool :=
+  forallb3 (fun (lo : bool) f n =>
+              let cut := firstn (Z.to_nat n) f in
+              negb lo || forallb (fun w => negb (zmem (v_id w) (ids cut)) || opt_eqb (cur cut (v_id w)) (Some w))
+                                 (tr_new r))
+           los srcs (tr_srclens r).
+
+(** entities-mode fullsync with a log handler and a receiver that refuses entity x: every other
+    source entity is delivered and nothing else of the sources is deleted *)
+Definition run_reject_spec (shl : bool) (hs : list handler) (srcs : list feed) (r : trun) : bool :=
+  match tr_flt r with
+  | FSinkReject x =>
+    if tr_full r && shl && existsb is_log hs then
+      forallb (fun cut => forallb (fun i => Z.eqb i x || opt_eqb (cur (tr_sink r) i) (cur cut i)) (ids cut))
+              (cuts srcs (tr_srclens r))
+    else true
+  | _ => true
+  end.
+
+Fixpoint extra_ops (c : tcase) (ops : list top) : bool :=
+  match ops with
+  | [] => true
+  | TRun r :: ops' =>
+    run_latest_spec (c_los c) (o_srcs c) r && run_reject_spec (shl_of c) (c_handlers c) (o_srcs c) r
+    && extra_ops c ops'
+  | _ :: ops' => extra_ops c ops'
+  end.
+Definition spec_extra (c : tcase) : bool := extra_ops c (c_ops c).
+
 
 (** the 8 variants: equality x fullsync-token x in-batch-duplicate rule *)
 Definition v_cur : variant := mkVar EqLen FsKeep DupStoredAndLocal.     (* the pinned tree *)
@@ -238,5 +282,5 @@ Definition predict (v : variant) (c : tcase) :=
      sink-feed-length drift under each variant] *)
 Definition evaluate (cs : list tcase) : list (list N) :=
   map (fun v => indices_where (fun c => negb (agree v c)) cs) all_variants
-  ++ [indices_where (fun c => negb (spec_ok c)) cs]
+  ++ [indices_where (fun c => negb (spec_ok c && spec_extra c)) cs]
   ++ map (fun v => indices_where (fun c => negb (agree_sinklen v c)) cs) all_variants.
